@@ -2,7 +2,7 @@ import numpy as np
 
 from pySDC.core.errors import TransferError
 from pySDC.core.space_transfer import SpaceTransfer
-from pySDC.implementations.datatype_classes.mesh import mesh, imex_mesh
+from pySDC.implementations.datatype_classes.mesh import mesh, MultiComponentMesh
 
 
 class mesh_to_mesh_fft2d(SpaceTransfer):
@@ -43,13 +43,14 @@ class mesh_to_mesh_fft2d(SpaceTransfer):
         Args:
             F: the fine level data (easier to access than via the fine attribute)
         """
-        if isinstance(F, mesh):
+        # multi-component meshes (e.g. imex_mesh) are meshes, too, so they have to be checked first
+        if isinstance(F, MultiComponentMesh):
+            G = type(F)(self.coarse_prob.init, val=0.0)
+            for comp in F.components:
+                G.__getattr__(comp)[:] = F.__getattr__(comp)[:: self.ratio, :: self.ratio]
+        elif isinstance(F, mesh):
             G = mesh(self.coarse_prob.init, val=0.0)
             G[:] = F[:: self.ratio, :: self.ratio]
-        elif isinstance(F, imex_mesh):
-            G = imex_mesh(self.coarse_prob.init, val=0.0)
-            G.impl[:] = F.impl[:: self.ratio, :: self.ratio]
-            G.expl[:] = F.expl[:: self.ratio, :: self.ratio]
         else:
             raise TransferError('Unknown data type, got %s' % type(F))
         return G
@@ -61,38 +62,26 @@ class mesh_to_mesh_fft2d(SpaceTransfer):
         Args:
             G: the coarse level data (easier to access than via the coarse attribute)
         """
-        if isinstance(G, mesh):
-            F = mesh(self.fine_prob.init)
-            tmpG = np.fft.fft2(G)
+
+        def _prolong(coarse):
+            nvars_fine = self.fine_prob.init[0][0]
+            halfG = int(self.coarse_prob.init[0][0] / 2)
+            tmpG = np.fft.fft2(coarse)
             tmpF = np.zeros(self.fine_prob.init[0], dtype=np.complex128)
-            halfG = int(self.coarse_prob.init[0][0] / 2)
             tmpF[0:halfG, 0:halfG] = tmpG[0:halfG, 0:halfG]
-            tmpF[self.fine_prob.init[0][0] - halfG :, 0:halfG] = tmpG[halfG:, 0:halfG]
-            tmpF[0:halfG, self.fine_prob.init[0][0] - halfG :] = tmpG[0:halfG, halfG:]
-            tmpF[self.fine_prob.init[0][0] - halfG :, self.fine_prob.init[0][0] - halfG :] = tmpG[halfG:, halfG:]
-            F[:] = np.real(np.fft.ifft2(tmpF)) * self.ratio * 2
-        elif isinstance(G, imex_mesh):
-            F = imex_mesh(G)
-            tmpG_impl = np.fft.fft2(G.impl)
-            tmpF_impl = np.zeros(self.fine_prob.init, dtype=np.complex128)
-            halfG = int(self.coarse_prob.init[0][0] / 2)
-            tmpF_impl[0:halfG, 0:halfG] = tmpG_impl[0:halfG, 0:halfG]
-            tmpF_impl[self.fine_prob.init[0][0] - halfG :, 0:halfG] = tmpG_impl[halfG:, 0:halfG]
-            tmpF_impl[0:halfG, self.fine_prob.init[0][0] - halfG :] = tmpG_impl[0:halfG, halfG:]
-            tmpF_impl[self.fine_prob.init[0][0] - halfG :, self.fine_prob.init[0][0] - halfG :] = tmpG_impl[
-                halfG:, halfG:
-            ]
-            F.impl[:] = np.real(np.fft.ifft2(tmpF_impl)) * self.ratio * 2
-            tmpG_expl = np.fft.fft2(G.expl) / (self.coarse_prob.init[0] * self.coarse_prob.init[1])
-            tmpF_expl = np.zeros(self.fine_prob.init[0], dtype=np.complex128)
-            halfG = int(self.coarse_prob.init[0][0] / 2)
-            tmpF_expl[0:halfG, 0:halfG] = tmpG_expl[0:halfG, 0:halfG]
-            tmpF_expl[self.fine_prob.init[0][0] - halfG :, 0:halfG] = tmpG_expl[halfG:, 0:halfG]
-            tmpF_expl[0:halfG, self.fine_prob.init[0][0] - halfG :] = tmpG_expl[0:halfG, halfG:]
-            tmpF_expl[self.fine_prob.init[0][0] - halfG :, self.fine_prob.init[0][0] - halfG :] = tmpG_expl[
-                halfG:, halfG:
-            ]
-            F.expl[:] = np.real(np.fft.ifft2(tmpF_expl)) * self.ratio * 2
+            tmpF[nvars_fine - halfG :, 0:halfG] = tmpG[halfG:, 0:halfG]
+            tmpF[0:halfG, nvars_fine - halfG :] = tmpG[0:halfG, halfG:]
+            tmpF[nvars_fine - halfG :, nvars_fine - halfG :] = tmpG[halfG:, halfG:]
+            return np.real(np.fft.ifft2(tmpF)) * self.ratio * 2
+
+        # multi-component meshes (e.g. imex_mesh) are meshes, too, so they have to be checked first
+        if isinstance(G, MultiComponentMesh):
+            F = type(G)(self.fine_prob.init, val=0.0)
+            for comp in G.components:
+                F.__getattr__(comp)[:] = _prolong(G.__getattr__(comp))
+        elif isinstance(G, mesh):
+            F = mesh(self.fine_prob.init)
+            F[:] = _prolong(G)
         else:
             raise TransferError('Unknown data type, got %s' % type(G))
         return F
